@@ -217,10 +217,12 @@ type TermCtx struct {
 	vars   map[string]*Term
 	tables map[string]*Term
 	nfresh int
+	exMemo map[[3]int]*Term
+	eqMemo map[[2]int]*Term
 }
 
 func NewTermCtx() *TermCtx {
-	return &TermCtx{tab: map[string]*Term{}, vars: map[string]*Term{}, tables: map[string]*Term{}}
+	return &TermCtx{tab: map[string]*Term{}, vars: map[string]*Term{}, tables: map[string]*Term{}, exMemo: map[[3]int]*Term{}, eqMemo: map[[2]int]*Term{}}
 }
 
 func (c *TermCtx) mk(op Op, s Sort, p0, p1 int, args ...*Term) *Term {
@@ -370,6 +372,33 @@ func (c *TermCtx) Ite(cond, a, b *Term) *Term {
 			return c.And(cond, a)
 		}
 	}
+	// ite(c, x op k, x) = x op ite(c, k, 0) for op in {xor, or, add} (keeps folds flat)
+	if a.S.K == SBV {
+		for _, sw := range [2]bool{false, true} {
+			x, y := a, b
+			if sw {
+				x, y = b, a
+			}
+			if (x.Op == OBVXor || x.Op == OBVOr || x.Op == OBVAdd) && len(x.Args) == 2 {
+				var k *Term
+				if x.Args[0] == y {
+					k = x.Args[1]
+				} else if x.Args[1] == y {
+					k = x.Args[0]
+				}
+				if k != nil && k.Op == OConst {
+					z := BVC(k.S.W, 0)
+					var sel *Term
+					if sw {
+						sel = c.Ite(cond, z, k)
+					} else {
+						sel = c.Ite(cond, k, z)
+					}
+					return c.bin(x.Op, y, sel)
+				}
+			}
+		}
+	}
 	// ite(c, x, ite(c, y, z)) = ite(c,x,z)
 	if b.Op == OIte && b.Args[0] == cond {
 		return c.Ite(cond, a, b.Args[2])
@@ -412,7 +441,17 @@ func (c *TermCtx) Eq(a, b *Term) *Term {
 		if a.Op == OIte {
 			x, y := a.Args[1], a.Args[2]
 			if x.Op == OConst || y.Op == OConst {
-				return c.Ite(a.Args[0], c.Eq(x, b), c.Eq(y, b))
+				k := [2]int{a.ID, int(b.C)}
+				if b.C < 1<<31 {
+					if r, ok := c.eqMemo[k]; ok {
+						return r
+					}
+				}
+				r := c.Ite(a.Args[0], c.Eq(x, b), c.Eq(y, b))
+				if b.C < 1<<31 {
+					c.eqMemo[k] = r
+				}
+				return r
 			}
 		}
 		if a.Op == OZExt {
@@ -698,6 +737,19 @@ func (c *TermCtx) Slt(a, b *Term) *Term { return c.cmp(OBVSlt, a, b) }
 func (c *TermCtx) Sle(a, b *Term) *Term { return c.cmp(OBVSle, a, b) }
 
 func (c *TermCtx) Extract(hi, lo int, a *Term) *Term {
+	if a.Op == OConst || a.ID == 0 {
+		return c.extract1(hi, lo, a)
+	}
+	k := [3]int{hi, lo, a.ID}
+	if r, ok := c.exMemo[k]; ok {
+		return r
+	}
+	r := c.extract1(hi, lo, a)
+	c.exMemo[k] = r
+	return r
+}
+
+func (c *TermCtx) extract1(hi, lo int, a *Term) *Term {
 	w := hi - lo + 1
 	if lo == 0 && w == a.S.W {
 		return a
